@@ -284,6 +284,93 @@ def gen_design(rng, size="small", trigger=None):
     return d
 
 
+# ----------------------------------------------------------------------------------------------
+# LONG designs: texts of tens to hundreds of kB whose strings (renamed names, string properties) contain
+# blanks and parentheses and cover most of the text, so that some string straddles every multiple of the
+# reader's block size; a leading comment works as padding that shifts the rest of the text
+# ----------------------------------------------------------------------------------------------
+LONG_WORDS = ("A6LUT", "u", "(x)", "fixed by the floorplan", "do not retime", ")(", "( )", "stage")
+
+
+def blanky(rng, k):
+    """a string of about k characters with a blank or parenthesis every few characters"""
+    parts = []
+    n = 0
+    while n < k:
+        w = rng.choice(LONG_WORDS + ("gen(%d)" % rng.randint(0, 999), "SLICE_X%dY%d" % (rng.randint(0, 99), rng.randint(0, 99)),
+                                     "blk %d" % rng.randint(0, 9)))
+        parts.append(w)
+        n += len(w) + 1
+    return " ".join(parts)
+
+
+def gen_long_design(n, seed, pad=""):
+    """chain of n placed buffers; every instance and net is renamed to a string with blanks / parentheses,
+    every instance carries a long string property (and an integer one)"""
+    import random
+    rng = random.Random(seed)
+
+    def nm(i, o=None):
+        return {"id": i, "orig": o}
+
+    def port(i, d):
+        return {"nm": nm(i), "width": None, "dir": d, "props": []}
+    leaf = {"nm": nm("BUF"), "view": nm("netlist"), "props": [], "comments": [], "ports": [port("I", "INPUT"), port("O", "OUTPUT")],
+            "insts": [], "buses": [], "nets": []}
+    top = {"nm": nm("top", "top of the (long) chain"), "view": nm("netlist"), "props": [], "comments": [],
+           "ports": [port("a", "INPUT"), port("y", "OUTPUT")], "insts": [], "buses": [], "nets": []}
+    prev = {"inst": None, "port": 0, "bit": None, "pspell": "a", "ispell": None}
+    for k in range(n):
+        top["insts"].append({"nm": nm("u%d" % k, blanky(rng, rng.randint(15, 60)) + " %d" % k), "ref": [0, 0], "vspell": "netlist",
+                             "cspell": rng.choice(["BUF", "buf", "Buf"]), "lspell": rng.choice(["prims", "PRIMS", None]) if False else "prims",
+                             "props": [{"nm": nm("LOC"), "t": "s", "v": blanky(rng, rng.randint(30, 120)), "owner": None},
+                                       {"nm": nm("N%d" % (k % 7)), "t": "i", "v": rng.randint(-10 ** 9, 10 ** 9), "owner": None}],
+                             "comments": []})
+        top["nets"].append({"kind": "scalar", "nm": nm("n%d" % k, blanky(rng, rng.randint(10, 50)) + " %d" % k),
+                            "pins": [prev, {"inst": k, "port": 0, "bit": None, "pspell": rng.choice(["I", "i"]), "ispell": "u%d" % k}],
+                            "props": [], "comments": []})
+        prev = {"inst": k, "port": 1, "bit": None, "pspell": "O", "ispell": rng.choice(["u%d", "U%d"]) % k}
+    top["nets"].append({"kind": "scalar", "nm": nm("y"), "pins": [prev, {"inst": None, "port": 1, "bit": None, "pspell": "y", "ispell": None}],
+                        "props": [], "comments": []})
+    body = [{"k": "comment", "text": [pad]},
+            {"k": "lib", "external": False, "nm": nm("prims"), "comments": [], "cells": [leaf]},
+            {"k": "lib", "external": False, "nm": nm("work", "work (lib)"), "comments": [], "cells": [top]},
+            {"k": "design", "nm": nm("top_i", "the top"), "ref": [1, 0], "cspell": "TOP", "lspell": "Work", "props": []}]
+    return {"name": nm("long_%d" % n), "status": None, "body": body}
+
+
+def token_spans(text):
+    """(start, end, kind) of every token of an EDIF text; kind: s(tring) | p(arenthesis) | n(umber) | i(dentifier / word)"""
+    import re
+    out = []
+    for m in re.finditer(r'"[^"]*"|[()]|[^\s()"]+', text):
+        t = m.group()
+        k = "s" if t[0] == '"' else "p" if t in "()" else "n" if t.lstrip("+-").isdigit() else "i"
+        out.append((m.start(), m.end(), k))
+    return out
+
+
+def long_text(n, seed, j, kind, where, delta):
+    """the text of gen_long_design(n, seed) padded so that block boundary 32768*j falls `delta` characters after the start
+    (where='s') or the end (where='e') of a token of the given kind (p: the boundary falls inside a run of parentheses).
+    Returns (design, text, tokens, boundary position relative to the token)"""
+    import random
+    B = 32768 * j
+    d0 = gen_long_design(n, seed, "")
+    t0, _ = render(d0, random.Random(seed), "camel", "tight" if seed % 2 else "pretty")
+    pad = ""
+    hit = None
+    if B < len(t0):
+        cands = [sp for sp in token_spans(t0) if sp[2] == kind and sp[0] > 200 and (sp[0] if where == "s" else sp[1]) + delta <= B]
+        if cands:
+            sp = cands[-1]
+            pad = "p" * (B - ((sp[0] if where == "s" else sp[1]) + delta))
+            hit = sp
+    d = gen_long_design(n, seed, pad)
+    text, toks = render(d, random.Random(seed), "camel", "tight" if seed % 2 else "pretty")
+    return d, text, toks, hit
+
+
 def gen_nets(rng, cell, libs, S, trigger):
     """connect a random subset of the available pins, each pin on at most one net"""
     free = []
@@ -320,6 +407,18 @@ def gen_nets(rng, cell, libs, S, trigger):
                 nm = gen_nm(rng, ui, un, p_rename=0.4, for_net=True)
             if nm["orig"] is None:
                 nm["orig"] = nm["id"]
+            # multi-dimensional names: the bus is called stem[d] (its bits stem[d][i]); several buses of a cell share the stem
+            if rng.random() < 0.15:
+                stems = [b["orig"][:b["orig"].index("[")] for b in cell["buses"] if b.get("_md")]
+                stem = rng.choice(stems) if stems and rng.random() < 0.7 else nm["id"].lstrip("&") or "m"
+                for dd in rng.sample(range(0, 8), 8):
+                    cand = "%s[%d]" % (stem, dd)
+                    if cand not in un:
+                        un.discard(nm["orig"])
+                        un.add(cand)
+                        nm["orig"] = cand
+                        nm["_md"] = True
+                        break
             cell["buses"].append(nm)
             base = rng.choice([0, 0, 0, 1, 2, 5, 31])
             width = rng.randint(1, S["width"])
@@ -496,8 +595,9 @@ def cell_tree(kw, cell):
                 it = [kw("instance"), nm_tree(kw, i["nm"])]
             elif i.get("nocellref"):        # trigger viewref_no_cellref: (viewRef v) names the cell being read
                 it = [kw("instance"), nm_tree(kw, i["nm"]), [kw("viewref"), i["vspell"]]]
-            it += [prop_tree(kw, x) for x in i["props"]]
-            it += comment_trees(kw, i.get("comments", []))
+            # comments before or after the properties (fixed by the identifier, so that the text is a function of the design)
+            ps, cs = [prop_tree(kw, x) for x in i["props"]], comment_trees(kw, i.get("comments", []))
+            it += (cs + ps) if len(i["nm"]["id"]) % 2 == 0 else (ps + cs)
             cont.append(it)
         for n in cell["nets"]:
             if n["kind"] == "scalar":
@@ -511,8 +611,8 @@ def cell_tree(kw, cell):
             cont.append(nt)
         view.append(cont)
     t.append(view)
-    t += [prop_tree(kw, x) for x in cell["props"]]
-    t += comment_trees(kw, cell["comments"])
+    ps, cs = [prop_tree(kw, x) for x in cell["props"]], comment_trees(kw, cell["comments"])
+    t += (cs + ps) if len(cell["nm"]["id"]) % 2 == 0 else (ps + cs)
     return t
 
 
